@@ -290,8 +290,13 @@ class _EmptyTaskError(Exception):
         return 0
 
 
+class _BaseTaskError(BaseException):
+    """not an Exception subclass"""
+
+
 _EXC = [ValueError, KeyError, OSError, RuntimeError, ZeroDivisionError, TimeoutError, IOError, TypeError,
-        AttributeError, StopIteration, LookupError, AssertionError, Exception, _FalsyTaskError, _EmptyTaskError]
+        AttributeError, StopIteration, LookupError, AssertionError, Exception, _FalsyTaskError, _EmptyTaskError,
+        SystemExit, KeyboardInterrupt, GeneratorExit, _BaseTaskError]
 
 
 def _make_exc(token):
@@ -921,6 +926,12 @@ def check_c09(events, prog):
         for tok in waited:
             if tok not in answered and tok in must and tok not in ix["start"]:
                 out.append(("accepted-task-never-executed", {"tok": tok, "frozen_while_waiting_for_it": True}))
+    # a frozen state with a caller still waiting for the result of a task whose body has finished
+    if abandoned:
+        answered = set(f["tok"] for _, k, _, f in events if k == "wait_ret")
+        for _, k, _, f in events:
+            if k == "wait_call" and f["tok"] not in answered and ix["end"].get(f["tok"]):
+                out.append(("future-never-done-after-task-end", {"tok": f["tok"]}))
     if drained and not abandoned:
         for tok in must_run_tokens(events):
             if tok not in ix["start"] and tok not in stuck:
